@@ -262,8 +262,10 @@ class EquationSolver(object):
             prev = TS[-2]
             bad = False
             if abs(lastval-prev) > self.ParameterInitialSteadyStateErrorToler:
-                if abs(lastval) < 1e-4:
-                    if not abs(prev) < 1e-4:
+                # Values near zero are compared absolutely; "near" follows the requested tolerance (default 1e-4).
+                near_zero = min(1e-4, self.ParameterInitialSteadyStateErrorToler)
+                if abs(lastval) < near_zero:
+                    if not abs(prev) < near_zero:
                         bad = True
                 else:
                     err = abs(lastval - prev) / abs(lastval)
